@@ -103,7 +103,7 @@ theorem exec_reach (p : Prog) : ∀ (f : FS) (sch : List Outcome) (n : Nat) (hd 
 /-! ### the fixed code, part by part -/
 
 /-- `backup_create_md5_file` touches only the md5 file -/
-theorem reach_md5Part (h : Bytes → Bytes) (f : FS) (n : Nat) (t : Bytes) (ht : f.target = some t) :
+theorem reach_md5Part (h : FBytes → FBytes) (f : FS) (n : Nat) (t : FBytes) (ht : f.target = some t) :
     ∀ o, Reach f n false (md5Part Fix.fixed h (.done EX_OK)) o →
       o.fs.target = some t ∧ o.fs.bak = f.bak ∧ o.fs.tmp = f.tmp ∧ StatusOK o := by
   simp [md5Part, Reach, FS.get, ht, Fix.fixed, during, failed, step, FS.set, or_imp, forall_and,
@@ -111,7 +111,7 @@ theorem reach_md5Part (h : Bytes → Bytes) (f : FS) (n : Nat) (t : Bytes) (ht :
 
 
 /-- after a successful `fclose(pfout)`: compare, unlink or rename, md5 -/
-theorem reach_finishPart (mode : FsMode) (h : Bytes → Bytes) (f : FS) (n : Nat) (orig out : Bytes)
+theorem reach_finishPart (mode : FsMode) (h : FBytes → FBytes) (f : FS) (n : Nat) (orig out : FBytes)
     (ht : f.target = some orig) (htmp : f.tmp = some out) :
     ∀ o, Reach f n false (finishPart Fix.fixed mode h) o →
       (o.fs.target = some orig ∨ o.fs.target = some out) ∧ o.fs.bak = f.bak ∧ StatusOK o := by
@@ -126,7 +126,7 @@ theorem reach_finishPart (mode : FsMode) (h : Bytes → Bytes) (f : FS) (n : Nat
     first | exact a | exact Or.inl a | exact Or.inr a | exact b | exact d
 
 /-- `uncrustify_file` writing the temp file, `fclose`, and everything after it -/
-theorem reach_fmtPart (mode : FsMode) (h : Bytes → Bytes) (f : FS) (n : Nat) (orig : Bytes) (r : FmtRes)
+theorem reach_fmtPart (mode : FsMode) (h : FBytes → FBytes) (f : FS) (n : Nat) (orig : FBytes) (r : FmtRes)
     (ht : f.target = some orig) (htmp : f.tmp = some []) :
     ∀ o, Reach f n false (fmtPart Fix.fixed mode h r) o →
       (o.fs.target = some orig ∨ ∃ out, r = .ok out ∧ o.fs.target = some out)
@@ -143,7 +143,7 @@ theorem reach_fmtPart (mode : FsMode) (h : Bytes → Bytes) (f : FS) (n : Nat) (
       obtain ⟨a, b, d⟩ := reach_finishPart mode h _ _ orig out rfl rfl x hx
       first | exact a | exact b | exact d
 
-theorem reach_restPart (mode : FsMode) (h : Bytes → Bytes) (f : FS) (n : Nat) (orig : Bytes) (r : FmtRes)
+theorem reach_restPart (mode : FsMode) (h : FBytes → FBytes) (f : FS) (n : Nat) (orig : FBytes) (r : FmtRes)
     (ht : f.target = some orig) :
     ∀ o, Reach f n false (restPart Fix.fixed mode h r) o →
       (o.fs.target = some orig ∨ ∃ out, r = .ok out ∧ o.fs.target = some out)
@@ -156,7 +156,7 @@ theorem reach_restPart (mode : FsMode) (h : Bytes → Bytes) (f : FS) (n : Nat) 
     first | exact a | exact b | exact d
 
 /-- the whole of `do_source_file` (fixed code) -/
-theorem reach_doSourceFile (mode : FsMode) (F : Bytes → FmtRes) (h : Bytes → Bytes) (f0 : FS) (orig : Bytes)
+theorem reach_doSourceFile (mode : FsMode) (F : FBytes → FmtRes) (h : FBytes → FBytes) (f0 : FS) (orig : FBytes)
     (h0 : f0.target = some orig) :
     ∀ o, Reach f0 0 false (doSourceFile Fix.fixed mode F h) o →
       (o.fs.target = some orig ∨ ∃ out, F orig = .ok out ∧ o.fs.target = some out)
